@@ -3,7 +3,7 @@
 Require Import LV.Common.Bytes LV.Common.HashWords LV.Gen.Gen_hash LV.Gen.Gen_sasl LV.Spec.JidSpec
                LV.Spec.Base64Spec LV.Spec.HashSpec LV.Spec.Rfc2831Spec
                LV.Model.Base64Model LV.Model.HashModel LV.Model.HmacModel LV.Model.SaslModel
-               LV.Proofs.Base64Proofs LV.Proofs.HashProofs LV.Proofs.SaslProofs.
+               LV.Proofs.Base64Proofs LV.Proofs.HashProofs LV.Proofs.SaslProofs LV.Proofs.SaslScramProofs.
 Local Open Scope Z_scope.
 
 (* ---- the table ---- *)
@@ -238,3 +238,133 @@ Lemma digest_no_nonce : forall challenge jid password rnd t0,
   parse_digest_challenge challenge = AOk t0 -> tbl_get s_nonce t0 = None ->
   sasl_digest_md5 challenge jid password rnd = ANull.
 Proof. intros * Hp Hn. unfold sasl_digest_md5. rewrite Hp. cbn [abind]. rewrite Hn. reflexivity. Qed.
+
+(* ------------------------------------------------------------------------------------------ *)
+(* _parse_digest_challenge on a directive list in the RFC's form: key=value or key=<quoted value>,
+   comma separated                                                                             *)
+Record dirv := { d_key : list Z; d_val : list Z; d_quoted : bool }.
+Definition render1 (d : dirv) : list Z :=
+  d_key d ++ [61] ++ (if d_quoted d then [34] ++ d_val d ++ [34] else d_val d).
+Fixpoint render (ds : list dirv) : list Z :=
+  match ds with
+  | [] => []
+  | d :: r => render1 d ++ match r with [] => [] | _ => [44] ++ render r end
+  end.
+Definition head_not (l : list Z) (bad : list Z) : Prop :=
+  match l with c :: _ => ~ In c bad | [] => True end.
+(* a key has no equals sign and does not begin with a comma or a space; a quoted value has no double
+   quote; an unquoted one has no comma and does not begin with a quote character *)
+Definition dir_ok (d : dirv) : Prop :=
+  ~ In 61 (d_key d) /\ head_not (d_key d) [44; 32] /\
+  (if d_quoted d then ~ In 34 (d_val d) else ~ In 44 (d_val d) /\ head_not (d_val d) [34; 39]).
+Definition table_of (ds : list dirv) (t : table) : table :=
+  fold_left (fun t d => tbl_add (d_key d) (d_val d) t) ds t.
+
+Lemma span_to_app : forall c a r, ~ In c a -> span_to c (a ++ c :: r) = (a, c :: r).
+Proof.
+  induction a as [|x a IH]; intros r H; cbn [app span_to]; [now rewrite Z.eqb_refl|].
+  assert (Hx : x <> c) by (intros ->; apply H; now left). apply Z.eqb_neq in Hx. rewrite Hx.
+  rewrite IH; [reflexivity|]. intros K. apply H. now right.
+Qed.
+Lemma span_to_none : forall c a, ~ In c a -> span_to c a = (a, []).
+Proof.
+  induction a as [|x a IH]; intros H; cbn [span_to]; [reflexivity|].
+  assert (Hx : x <> c) by (intros ->; apply H; now left). apply Z.eqb_neq in Hx. rewrite Hx.
+  rewrite IH; [reflexivity|]. intros K. apply H. now right.
+Qed.
+Lemma skip_cs_head : forall l, head_not l [44; 32] -> skip_cs l = l.
+Proof.
+  intros [|c l] H; [reflexivity|]. cbn [skip_cs]. cbn [head_not In] in H.
+  replace (c =? 44) with false by (symmetry; apply Z.eqb_neq; intros ->; apply H; now left).
+  replace (c =? 32) with false by (symmetry; apply Z.eqb_neq; intros ->; apply H; right; now left).
+  reflexivity.
+Qed.
+
+Lemma parse_loop_step : forall f s t, s <> [] ->
+  parse_loop (S f) s t =
+    let s1 := skip_cs s in
+    let '(key, at_eq) := span_to 61 s1 in
+    match at_eq with
+    | [] => AOk t
+    | _ :: s2 =>
+      match s2 with
+      | q :: r =>
+        if (q =? 39) || (q =? 34) then
+          let '(v, at_q) := span_to q r in
+          parse_loop f (match at_q with _ :: r3 => r3 | [] => [] end) (tbl_add key v t)
+        else
+          let '(v, at_c) := span_to 44 s2 in
+          parse_loop f at_c (tbl_add key v t)
+      | [] => parse_loop f [] (tbl_add key [] t)
+      end
+    end.
+Proof. intros f [|c s] t H; [contradiction|reflexivity]. Qed.
+
+Lemma parse_render : forall ds fuel t pre,
+  Forall dir_ok ds -> (length ds < fuel)%nat -> pre = [] \/ (pre = [44] /\ ds <> []) ->
+  parse_loop fuel (pre ++ render ds) t = AOk (table_of ds t).
+Proof.
+  induction ds as [|d r IH]; intros fuel t pre Hok Hf Hpre.
+  - destruct Hpre as [->|[_ K]]; [|contradiction]. destruct fuel; [cbn in Hf; lia|]. reflexivity.
+  - destruct fuel as [|f]; [cbn in Hf; lia|]. cbn [length] in Hf.
+    inversion Hok as [|? ? Hd Hr]; subst. destruct Hd as (Hk61 & Hkh & Hv).
+    set (tail := match r with [] => [] | _ => [44] ++ render r end).
+    assert (Etail : tail = (match r with [] => [] | _ => [44] end) ++ render r) by (unfold tail; destruct r; reflexivity).
+    assert (Hs1 : skip_cs (pre ++ render (d :: r)) = render1 d ++ tail).
+    { cbn [render]. fold tail. assert (E : skip_cs (render1 d ++ tail) = render1 d ++ tail).
+      { apply skip_cs_head. unfold render1. destruct (d_key d) as [|c k]; [cbn; intros [K|[K|[]]]; discriminate|exact Hkh]. }
+      destruct Hpre as [->|[-> _]]; [exact E|]. cbn [app skip_cs Z.eqb Pos.eqb orb]. exact E. }
+    assert (Hne : pre ++ render (d :: r) <> []).
+    { cbn [render]. unfold render1. intro K. apply (f_equal (@length Z)) in K. rewrite !app_length in K. cbn [length] in K. lia. }
+    rewrite parse_loop_step by exact Hne. cbv zeta.
+    rewrite Hs1. unfold render1. rewrite <- !app_assoc. cbn [app]. rewrite span_to_app by exact Hk61.
+    assert (Next : forall t', parse_loop f tail t' = AOk (table_of r t')).
+    { intros t'. rewrite Etail. apply IH; [exact Hr|lia|]. destruct r; [now left|right; split; [reflexivity|discriminate]]. }
+    change (table_of (d :: r) t) with (table_of r (tbl_add (d_key d) (d_val d) t)).
+    destruct (d_quoted d).
+    + cbn [app Z.eqb Pos.eqb orb]. rewrite <- app_assoc. cbn [app]. rewrite span_to_app by exact Hv. apply Next.
+    + destruct Hv as [Hv44 Hvh].
+      destruct (d_val d ++ tail) as [|q rest] eqn:E2.
+      * apply app_eq_nil in E2. destruct E2 as [E2a E2b]. rewrite E2a.
+        rewrite <- E2b. apply Next.
+      * assert (Hq : (q =? 39) || (q =? 34) = false).
+        { destruct (d_val d) as [|v0 vs] eqn:Ev.
+          - cbn [app] in E2. unfold tail in E2. destruct r; [discriminate|]. cbn [app] in E2. injection E2 as <- _. reflexivity.
+          - cbn [app] in E2. injection E2 as <- _. cbn [head_not In] in Hvh. apply orb_false_iff. split; apply Z.eqb_neq; intros ->; apply Hvh; [right; now left|now left]. }
+        rewrite Hq. rewrite <- E2.
+        destruct r as [|d2 r2].
+        -- unfold tail. rewrite app_nil_r. rewrite span_to_none by exact Hv44.
+           destruct f; [cbn in Hf; lia|]. reflexivity.
+        -- unfold tail at 1. cbn [app]. rewrite span_to_app by exact Hv44.
+           change (44 :: render (d2 :: r2)) with tail. apply Next.
+Qed.
+
+Lemma render_length : forall ds, (length ds <= length (render ds))%nat.
+Proof.
+  induction ds as [|d r IH]; cbn [render length]; [lia|]. unfold render1. rewrite !app_length. cbn [length].
+  destruct r; [cbn [length]; lia|]. rewrite app_length. cbn [length] in *. lia.
+Qed.
+
+(* the whole of _parse_digest_challenge: base64 of such a list (NUL-free bytes) gives its table *)
+Lemma parse_challenge_lemma : forall ds,
+  ds <> [] -> Forall dir_ok ds -> bytes (render ds) -> ~ In 0 (render ds) ->
+  parse_digest_challenge (encode (render ds)) = AOk (table_of ds []).
+Proof.
+  intros ds Hne Hok Hb H0. unfold parse_digest_challenge.
+  assert (Hrne : render ds <> []).
+  { destruct ds as [|d r]; [contradiction|]. cbn [render]. unfold render1. intro K. apply (f_equal (@length Z)) in K.
+    rewrite !app_length in K. cbn [length] in K. lia. }
+  assert (Eb : bytes (encode (render ds))) by (now apply encode_bytes).
+  rewrite (str_exact _ Eb).
+  assert (Hz : (zlen (encode (render ds)) =? 0) = false).
+  { apply Z.eqb_neq. destruct (render ds) as [|x l]; [contradiction|]. pose proof (encode_nonempty x l) as N.
+    destruct (encode (x :: l)); [contradiction|]. rewrite zlen_cons. pose proof (zlen_nonneg l0). lia. }
+  rewrite Hz.
+  destruct (spec_decode_encode _ Hb Hrne) as [V D]. rewrite V, D.
+  assert (Hnz : existsb (Z.eqb 0) (render ds) = false).
+  { destruct (existsb (Z.eqb 0) (render ds)) eqn:E; [|reflexivity]. apply existsb_exists in E. destruct E as (x & Hx & Ex).
+    apply Z.eqb_eq in Ex. subst x. contradiction. }
+  rewrite Hnz. cbn [andb negb].
+  rewrite <- (app_nil_l (render ds)). apply parse_render; [exact Hok| |now left].
+  cbn [app]. pose proof (render_length ds). lia.
+Qed.
